@@ -92,6 +92,7 @@ func SnakePlural(name string) string {
 // ---------------------------------------------------------------------------
 
 type sqlGen struct {
+	progIdx int
 	r      *rand.Rand
 	p      *Program
 	root   *Pkg
@@ -159,7 +160,7 @@ func NewSQLProg(idx int, r *rand.Rand) *Program {
 	root := &Pkg{Name: "pk" + id, Path: ModulePath + "/" + id, Dir: id}
 	p := &Program{ID: id, Family: "sqlprog", Root: root, Meta: map[string]any{}}
 	p.Sources = []string{id + "/models.go"}
-	g := &sqlGen{r: r, p: p, root: root, names: map[string]bool{}, truth: &SQLTruth{Composites: map[string]string{}, PkgName: root.Name}, usedAttrs: map[int]bool{}}
+	g := &sqlGen{progIdx: idx, r: r, p: p, root: root, names: map[string]bool{}, truth: &SQLTruth{Composites: map[string]string{}, PkgName: root.Name}, usedAttrs: map[int]bool{}}
 	for _, n := range []string{"db", "scanner", "loadjson", "dumpjson"} {
 		g.names[n] = true
 	}
@@ -715,8 +716,8 @@ func (g *sqlGen) makePrimaryTable(i int) {
 	if i == 0 && g.tableHint != "" {
 		stem = g.tableHint
 	}
-	if i > 0 && g.pr(0.15) {
-		stem = strings.ToLower(stem[:1]) + stem[1:] // a table struct that is not exported
+	if lower := g.pr(0.15); i > 0 && (lower || i == 1 && g.progIdx%4 == 2) {
+		stem = strings.ToLower(stem[:1]) + stem[1:] // a table struct that is not exported (every fourth program has one)
 		g.p.Feature("sql:unexported-table-struct")
 	}
 	t := g.newTable(stem, false)
@@ -1150,11 +1151,26 @@ func (g *sqlGen) addDirectives() {
 			add(SQLDirective{Kind: "free-standing-index", Raw: fmt.Sprintf("CREATE INDEX %s ON %s (%s)", idx, tr.Struct, c.Field),
 				Expected: fmt.Sprintf("CREATE INDEX %s ON %s (%s);", idx, tr.SQLName, c.Field)})
 		}
-		// custom queries
-		if g.pr(0.5) && len(cols) >= 2 {
+		// custom queries (always one on a table struct that is not exported: its Go name is a lower-case word)
+		if take := g.pr(0.5); (take || tr.Struct[0] >= 'a' && tr.Struct[0] <= 'z') && len(cols) >= 2 {
 			set, where := cols[0], cols[len(cols)-1]
 			if set.Primary {
 				set, where = where, set
+			}
+			if tr.Struct[0] >= 'a' && tr.Struct[0] <= 'z' {
+				// make sure the query exists and can be executed by the C05 driver: write a plain column no key mentions
+				for _, c := range cols {
+					inKey := c.Unique
+					for _, d := range tr.Directives {
+						if (strings.HasPrefix(d.Kind, "unique") || strings.HasPrefix(d.Kind, "primary-key")) && strings.Contains(d.Raw, c.Field) {
+							inKey = true
+						}
+					}
+					if !c.Primary && !inKey && c.Kind != "fk" && !strings.HasPrefix(c.Kind, "fk:") && c.Field != where.Field {
+						set = c
+						break
+					}
+				}
 			}
 			if !set.Primary && set.Kind != "fk" && !strings.HasPrefix(set.Kind, "fk:") {
 				fn := g.fresh("Set" + tr.Struct + set.Field)
